@@ -122,12 +122,12 @@ CONTRACTS['scenario_names_in_and_outside_the_mode'] = dict(
     ensures=[('a-non-conforming-name-is-rejected-inside-the-mode-and-accepted-outside', 'result[0] == True and result[2] == 1'),
              ('mode-off-again', 'result[1] == False')])
 CONTRACTS['scenario_rejected_channel_keeps_no_data'] = dict(
-    _SC, props=['C20', 'C18'], params={'name': 'str', 'arr': 'opq:ndarray'}, requires=['len(name) > 0'],
+    _SC, props=['C20', 'C18', 'C12'], params={'name': 'str', 'arr': 'opq:ndarray'}, requires=['len(name) > 0'],
     ensures=[('rejected', 'result[0] == True'), ('the-array-of-the-rejected-call-is-not-kept', 'result[1] == 0'),
              ('the-retry-is-numbered-and-named-as-a-first-channel', 'result[2] == 0 and result[3] == name')])
 
 CONTRACTS['scenario_two_logical_files_with_their_own_sets'] = dict(
-    _SC, props=['C18', 'C07'], params={'name': 'str'}, requires=['len(name) > 0'],
+    _SC, props=['C18', 'C07', 'C12'], params={'name': 'str'}, requires=['len(name) > 0'],
     ensures=[('each-logical-file-holds-exactly-its-own-channel', 'result[0] == 1 and result[1] == 1 and result[2] == True and result[3] == True'),
              ('same-name-in-different-logical-files-does-not-bump-copy-numbers', 'result[4] == 0 and result[5] == 0'),
              ('logical-files-in-creation-order', 'result[6] == True and result[7] == True'),
